@@ -808,7 +808,7 @@ Section Steps.
     estep cv inc s i =
       (let r := step cv (es_cv s) (e_pos i) (if cv_samestep cv then e_force i else es_prev_total s) (e_fb i) in
        (mkEstate (fst r) (if inc then fadd Rops (e_force i) (o_forces (snd r)) else e_force i), snd r)).
-  Proof. unfold eng_step. destruct (cv_step _ _ _ _ _ _ _ _ _) as [cs out]. reflexivity. Qed.
+  Proof. unfold eng_step. destruct (cv_step _ _ _ _ _ _ _ _) as [cs out]. reflexivity. Qed.
 
   (* what the engine delivers in the lagged convention for the step of input i *)
   Definition own_force (cv : colvar) (i : einput) : R := applied_force Rops cv (e_fb i) (fjf (e_pos i) cv).
@@ -829,7 +829,7 @@ Section Steps.
     pose proof (step_state cv (es_cv s0) (e_pos i1) (es_prev_total s0) (e_fb i1)) as St. cbv zeta in St. fold r1 in St.
     destruct St as (Sp & Sj & Sr & Sf & So & Sc).
     rewrite step_lag by (try exact H; rewrite Sr; lia).
-    rewrite Sp, Sj, Sf, Sc, So. unfold lag_report, exerted, own_force.
+    rewrite Sp, Sj, Sf, Sc. unfold lag_report, exerted, own_force.
     destruct inc, (cv_subtract cv); reflexivity.
   Qed.
   Lemma one_step_same cv inc s i : cv_samestep cv = true -> o_ft (snd (estep cv inc s i)) = same_report cv i.
@@ -915,3 +915,108 @@ Section Steps.
     split; [exact E|]. rewrite E. apply Rgt_not_eq, Rlt_gt, ofnat_pos. destruct (cv_comps cv); [contradiction|cbn; lia].
   Qed.
 End Steps.
+
+(* ================================================================== statements used by Properties_C07.v *)
+Section Final.
+  Variable mass : nat -> R.
+  Local Notation proj := (cv_proj Rops PI mass).
+  Local Notation fjf := (cv_fj Rops PI mass).
+  Local Notation capply := (cv_apply Rops PI mass).
+  Local Notation erun := (eng_run Rops PI mass).
+
+  (* lagged convention, the engine hands back exactly what Colvars applied (its own force is zero on the
+     variable's atoms): the report of the next step *)
+  Lemma inverse_lagged cv pre s i1 i2 :
+    cv_samestep cv = false -> cv_inv_ok mass (e_pos i1) cv -> (forall a, In a (cv_atoms cv) -> e_force i1 a = v0) ->
+    last_ft (snd (erun cv true s (pre ++ [i1; i2]))) =
+      own_force mass cv i1 + (if adds_fj cv then fjf (e_pos i1) cv else 0) - (if cv_subtract cv then own_force mass cv i1 else 0).
+  Proof.
+    intros H Hok Hz. rewrite history_lag by exact H. unfold lag_report.
+    rewrite proj_exerted by exact Hok. rewrite (proj_vanish mass cv (e_pos i1) (e_force i1) Hz). ring.
+  Qed.
+  Lemma inverse_lagged_jacobian cv pre s i1 i2 :
+    cv_samestep cv = false -> cv_hide cv = false -> cv_subtract cv = false ->
+    cv_inv_ok mass (e_pos i1) cv -> (forall a, In a (cv_atoms cv) -> e_force i1 a = v0) ->
+    last_ft (snd (erun cv true s (pre ++ [i1; i2]))) = e_fb i1 + fjf (e_pos i1) cv.
+  Proof.
+    intros H Hh Hs Hok Hz. rewrite inverse_lagged by assumption.
+    unfold own_force, applied_force, adds_fj. rewrite Hh, Hs. cbn [andb negb]. ring.
+  Qed.
+  Lemma inverse_lagged_hidden cv pre s i1 i2 :
+    cv_samestep cv = false -> cv_hide cv = true -> cv_subtract cv = false ->
+    cv_inv_ok mass (e_pos i1) cv -> (forall a, In a (cv_atoms cv) -> e_force i1 a = v0) ->
+    last_ft (snd (erun cv true s (pre ++ [i1; i2]))) = e_fb i1.
+  Proof.
+    intros H Hh Hs Hok Hz. rewrite inverse_lagged by assumption.
+    unfold own_force, applied_force, adds_fj. rewrite Hh, Hs, H. cbn [andb orb negb]. rs. ring.
+  Qed.
+  Lemma inverse_lagged_T0 cv pre s i1 i2 :
+    cv_samestep cv = false -> cv_kT cv = 0 -> cv_subtract cv = false ->
+    cv_inv_ok mass (e_pos i1) cv -> (forall a, In a (cv_atoms cv) -> e_force i1 a = v0) ->
+    last_ft (snd (erun cv true s (pre ++ [i1; i2]))) = e_fb i1.
+  Proof.
+    intros H HT Hs Hok Hz. rewrite inverse_lagged by assumption.
+    unfold own_force, applied_force. rewrite Hs, (cv_fj_T0 mass cv (e_pos i1) HT). rs.
+    destruct (cv_hide cv), (adds_fj cv); ring.
+  Qed.
+  (* same-step convention: the engine's force field is exactly the distribution of a variable force f *)
+  Lemma inverse_same cv inc pre s i f :
+    cv_samestep cv = true -> cv_inv_ok mass (e_pos i) cv ->
+    (forall a, In a (cv_atoms cv) -> e_force i a = capply (e_pos i) cv f a) ->
+    last_ft (snd (erun cv inc s (pre ++ [i]))) = f + (if cv_hide cv then 0 else fjf (e_pos i) cv).
+  Proof.
+    intros H (Hi & Hd & Hs) HF. rewrite history_same by exact H. unfold same_report.
+    rewrite (cv_proj_local mass (e_pos i) cv (e_force i) (capply (e_pos i) cv f) HF).
+    rewrite cv_inverse by assumption. reflexivity.
+  Qed.
+
+  (* subtractAppliedForce: what is reported is the projection of the engine's own forces *)
+  Lemma subtract_applied cv pre s i1 i2 :
+    cv_samestep cv = false -> cv_subtract cv = true -> cv_inv_ok mass (e_pos i1) cv ->
+    last_ft (snd (erun cv true s (pre ++ [i1; i2]))) =
+      proj (e_pos i1) cv (e_force i1) + (if cv_hide cv then 0 else fjf (e_pos i1) cv).
+  Proof.
+    intros H Hs Hok. rewrite history_lag by exact H. unfold lag_report.
+    rewrite proj_exerted by exact Hok. unfold adds_fj. rewrite Hs. destruct (cv_hide cv); cbn [andb orb negb]; ring.
+  Qed.
+  Lemma without_subtract cv pre s i1 i2 :
+    cv_samestep cv = false -> cv_subtract cv = false -> cv_inv_ok mass (e_pos i1) cv ->
+    last_ft (snd (erun cv true s (pre ++ [i1; i2]))) =
+      proj (e_pos i1) cv (e_force i1) + own_force mass cv i1 + (if adds_fj cv then fjf (e_pos i1) cv else 0).
+  Proof.
+    intros H Hs Hok. rewrite history_lag by exact H. unfold lag_report.
+    rewrite proj_exerted by exact Hok. rewrite Hs. ring.
+  Qed.
+
+  (* locality at the level of reports *)
+  Lemma local_lagged cv inc pre pre' s s' i1 i1' i2 i2' :
+    cv_samestep cv = false -> e_pos i1 = e_pos i1' -> e_fb i1 = e_fb i1' ->
+    (forall a, In a (cv_atoms cv) -> e_force i1 a = e_force i1' a) ->
+    last_ft (snd (erun cv inc s (pre ++ [i1; i2]))) = last_ft (snd (erun cv inc s' (pre' ++ [i1'; i2']))).
+  Proof.
+    intros H Hp Hb HF. rewrite !history_lag by exact H. unfold lag_report, exerted, own_force.
+    rewrite <- Hp, <- Hb. f_equal. f_equal. apply cv_proj_local. intros a Ha.
+    destruct inc; [unfold fadd; rewrite (HF a Ha); reflexivity | exact (HF a Ha)].
+  Qed.
+  Lemma local_same cv inc pre pre' s s' i i' :
+    cv_samestep cv = true -> e_pos i = e_pos i' ->
+    (forall a, In a (cv_atoms cv) -> e_force i a = e_force i' a) ->
+    last_ft (snd (erun cv inc s (pre ++ [i]))) = last_ft (snd (erun cv inc s' (pre' ++ [i']))).
+  Proof.
+    intros H Hp HF. rewrite !history_same by exact H. unfold same_report. rewrite <- Hp. f_equal.
+    apply cv_proj_local. exact HF.
+  Qed.
+
+  (* +-1 combinations *)
+  Lemma pm1_combination cv pos f :
+    cv_comps cv <> [] -> Forall (fun p => snd p = 1 \/ snd p = -1) (cv_comps cv) ->
+    Forall (fun p => inv_ok mass pos (fst p)) (cv_comps cv) ->
+    ForallOrdPairs (fun p q => atoms_disj (fst p) (fst q)) (cv_comps cv) ->
+    proj pos cv (capply pos cv f) = f /\
+    fjf pos cv = tsum Rops (map (fun p => cvc_jd Rops PI mass pos (fst p) * snd p / ofnat Rops (length (cv_comps cv))) (cv_comps cv)) * cv_kT cv.
+  Proof.
+    intros Hne Hpm Hi Hd. destruct (sqnorm_pm1 cv Hne Hpm) as [E Hs]. split.
+    - apply cv_inverse; assumption.
+    - unfold cv_fj. rewrite E. reflexivity.
+  Qed.
+End Final.
